@@ -4,6 +4,7 @@ CONSTANTS Progs = {"fn3"}
           OpKinds = {"simulate", "generate"}
           MaxCons = 4
           UpdArgs = "all"
+          SimScripts = "all"
 INVARIANT Coherent
 INVARIANT SimulateOK
 INVARIANT SimTotalProb
